@@ -1,10 +1,10 @@
 from props import reg
 
 reg("C08",
-    check_imports=["Model.Block", "Model.Forkable", "Model.Burst", "Model.Hub", "Model.HubSubs", "Check.Burst_Check", "Check.C08_Check"],
-    case_type="c08_case", verdicts="c08_verdicts", scope="c08_in_scope",
+    check_imports=["Model.Block", "Model.Forkable", "Model.Burst", "Model.Hub", "Model.HubSubs", "Model.HubAll", "Check.Burst_Check", "Check.C08_Check"],
+    case_type="c08x_case", verdicts="c08x_verdicts", scope="c08x_in_scope",
     property_modules=[], theorems=[],
-    proof_files=["Base/Prelude.v", "Model/Block.v", "Model/ForkDB.v", "Model/Forkable.v", "Model/Burst.v", "Model/Hub.v", "Model/HubSubs.v",
+    proof_files=["Base/Prelude.v", "Model/Block.v", "Model/ForkDB.v", "Model/Forkable.v", "Model/Burst.v", "Model/Hub.v", "Model/HubSubs.v", "Model/HubAll.v",
                  "Spec/Consumer.v", "Check/Burst_Check.v", "Check/C08_Check.v", "Model/HubSched.v", "Check/C08S_Check.v"],
     n_quick=300, n_thorough=12000, n_escalate=3000,
     # schedule-level model (Model/HubSched.v) against the real code at lock granularity: harness/c08sched.go, Check/C08S_Check.v
@@ -12,7 +12,7 @@ reg("C08",
            "check_imports": ["Model.Block", "Model.Forkable", "Model.Burst", "Model.Hub", "Model.HubSubs", "Model.HubSched",
                              "Check.Burst_Check", "Check.C08_Check", "Check.C08S_Check"],
            "case_type": "c08s_case", "verdicts": "c08s_verdicts", "scope": None, "n_quick": 60, "n_thorough": 1500}],
-    rule="a real ready ForkableHub over a consensus-consistent history with short forks; 2/3 sequential operation sequences of 10-110 ops "
+    rule="a real ForkableHub over a consensus-consistent history with short forks, ready after the boot in about 70% of the cases; in the others (classes *not-ready*) the first live block leaves a hole behind the one-block files, 1-3 subscriptions are requested from the hub that is not ready (class suffix served-before-ready when one is served), and the hub becomes ready during the case: the missing blocks arrive live (the first linkable one makes it ready, possibly after up to two more unlinkable ones) or, classes *feed*, the next live block finds the one-block store caught up and the bootstrap pass plays the missing files through the Forkable; 2/3 sequential operation sequences of 10-110 ops "
          "(push live block / subscribe by number, with forks, from cursor, through cursor / drain a subscription; 25% with a consumer that never "
          "reads, so its queue of 100+burst overflows) compared with the model; 1/3 concurrent: 2-16 goroutines subscribe together, released by a "
          "rendez-vous at the schedule point between burst and registration (all inside the shared read lock), while a feeder pushes 3-22 blocks; "
@@ -25,6 +25,7 @@ reg("C08",
          "repo_patches/S6_hooks_hub_sched.diff, then completed round-robin; observation per schedule entry = step made or not, schedule point "
          "reached, RWMutex.Lock() returned or not, channel length of every subscription; at the end every delivery, capacity, drop, h.subscribers order",
     level_text="Model/HubSubs.v (registration, fan-out with capacity drop, drain) is compared with the real hub on sequential operation sequences; "
+               "the model pushes with Model/HubAll.v hub_live_all (every event the hub's Forkable hands to processBlock: bootstrap feed and live blocks processed before readiness included; for a ready hub = Model/Hub.v hub_live); "
                "the property (burst followed by every later event exactly once and in order, slow subscribers dropped alone, nothing lost under concurrent "
                "registration) is evaluated on sequential and concurrent observations; thorough tier adds a -race build. "
                "Schedule level: Model/HubSched.v (the model of the c08_sched_* theorems) is run by Check/C08S_Check.v on the same schedule as the real "
@@ -44,11 +45,8 @@ reg("C08",
                   "h.subscribers = append(h.subscribers, sub) is one step of the code and two of the model (read, write); sync.RWMutex / sync.Mutex "
                   "serve a waiting goroutine at the unlock, before later arrivals: the model (retry) allows more schedules than the code"],
     assumptions=["total events per subscription below the queue capacity unless the case is a slow-consumer case",
-                 "the hub is READY when a subscription is requested (every generated case; Model/Hub.hub_live returns no events for blocks "
-                 "processed before readiness, including the block that makes the hub ready, whereas the real hub fans those events out to "
-                 "a subscription obtained earlier: on that class the c08 theorems describe the model, not the code - witness "
-                 "c08_ready_transition_events_conclusion_weaker in Properties/Cxx_Audit2.v, replay TestW1_C08_SubscribedBeforeReadyReceivesEverything: "
-                 "the code itself conforms to the property there)",
+                 "subscriptions requested from a hub that is not ready yet are in scope (V2): the correspondence runs Model/HubAll.v hub_live_all, the sequence-level theorems c08_*_all hold for every start state and every content of the one-block store; the theorems c08_exactly_once ... / c08_sched_* built on Model/Hub.hub_live describe the real hub for a READY start state only (c08_all_ready_same, c08_sched_all_ready_same: there they coincide with the faithful ones)",
+                 "schedule level, hub not ready: the producer step of Model/HubSchedG.v is ONE Forkable.ProcessBlock critical section, which is the code when the bootstrap pass plays no one-block file (c08_sched_*_all are stated for that case); a bootstrap pass that plays files is several critical sections on the producer goroutine, a request can be served between two of them: not modelled at lock granularity (the sequential not-ready/feed cases cover the fan-out of those events); stage C08S still builds ready hubs only",
                  "subscriptions register no OnTerminating callbacks: Subscription.Shutdown of an overflowing subscriber runs on the producer "
                  "goroutine under the Forkable's write lock, so a user callback registered on that subscription delays the hub for as long as it "
                  "runs and wedges it if it calls back into the hub (observation W1-C08-1: no consumer inside the library registers one; the "
